@@ -148,3 +148,38 @@ def maximal_supported(kind):
 
 def all_supported(spec):
   return all(maximal_supported(l['kind']) for l in spec['links'])
+
+
+def star_forests(max_links=6):
+  """Forests of depth <= 1: r roots in {2,3}, every composition of the
+  children over the roots (uneven counts such as 2/0/1 exercise the level
+  grouping of scan.tree)."""
+  out = []
+  for r in (2, 3):
+    for c in range(1, max_links - r + 1):
+      for comp in itertools.product(range(c + 1), repeat=r):
+        if sum(comp) != c:
+          continue
+        par = []
+        for k in comp:
+          root = len(par)
+          par.append(-1)
+          par += [root] * k
+        out.append(tuple(par))
+  return out
+
+
+def level_pattern_models(seed, shapes, tag='lvl'):
+  """One model per shape, every link a single hinge or slide (type string all
+  '1', so skeleton = shape), distinct poses/axes per link."""
+  out = []
+  for sh in shapes:
+    rng = scope.rng_for(seed, tag, sh)
+    links = []
+    for i, p in enumerate(sh):
+      kind = 'H' if rng.rand() < 0.6 else 'S'
+      l = tmpl(kind, p, rng, 1 if i % 2 else 3)
+      l['anchor'] = None
+      links.append(l)
+    out.append(spec_of(links))
+  return out
